@@ -254,6 +254,7 @@ func cmdCheck() int {
 				continue
 			}
 			generated[o.Name] = true
+			generated[stripInstance(o.Name)] = true
 			if o.Cover {
 				coversRun++
 				if o.Result == "unsat" || o.Result == "error" {
@@ -315,7 +316,9 @@ func cmdCheck() int {
 	if baseline != nil {
 		var missing []string
 		for name := range baseline {
-			if !generated[name] && explicitKind(oblKindOf(name)) {
+			// instance suffixes (~N: the N-th return statement / call site the clause is checked at) are ignored, so a
+			// refactoring that merges or splits return statements is not an alarm as long as the clause is still checked
+			if !generated[name] && !generated[stripInstance(name)] && explicitKind(oblKindOf(name)) {
 				missing = append(missing, name)
 			}
 		}
@@ -470,4 +473,14 @@ func runPropWithCanaries(p *Prog, prop string, secs int, smtDir string) ([]*func
 	res, problems := runProp(p, prop, secs, smtDir)
 	can, _ := runProp(p, "CANARY", secs, smtDir)
 	return append(res, can...), problems
+}
+
+// stripInstance removes the instance suffix (~N) of an obligation name.
+func stripInstance(name string) string {
+	if i := strings.LastIndex(name, "~"); i >= 0 {
+		if _, err := strconv.Atoi(name[i+1:]); err == nil {
+			return name[:i]
+		}
+	}
+	return name
 }
